@@ -483,7 +483,7 @@ func specKey(sp *Spec) string {
 
 func c03(args []string) int {
 	run := NewRun("C03", args)
-	run.Sum.Rule = "histories of one request through the real proxy: request shape (headers only / +data / +trailers / one-way) x retry policy (retry_on, num_retries 0..3, status list, per-try time-out) x pool script (ok / connect failure / overflow per attempt) x up to 4 scripted events {upstream response 2xx/4xx/5xx with or without body, upstream reset with each reason, client disconnect, TerminateStream} on a 40 ms grid (same slot = racy), plus the real per-try and global timers; systematic product of shapes x budgets x first event x random second event, then random histories. Plus 37 histories in which the downstream sender returns an error from AppendHeaders / AppendData / AppendTrailers: every reply kind (upstream reply headers-only / with body / with trailers, filter hijack per phase, filter direct response, route direct response, no route, no host, reset / overflow / time-out replies, TerminateStream, send-filter answers, retried 503) x every sender call occurring in it. Non-trivial: at least one asynchronous event or pool failure or timer expiry decided the outcome (every history except the plain 2xx answer); distinct by the full history description."
+	run.Sum.Rule = "histories of one request through the real proxy: request shape (headers only / +data / +trailers / one-way) x retry policy (retry_on, num_retries 0..3, status list, per-try time-out) x pool script (ok / connect failure / overflow per attempt) x up to 4 scripted events {upstream response 2xx/4xx/5xx with or without body, upstream reset with each reason, client disconnect, TerminateStream} on a 40 ms grid (same slot = racy), plus the real per-try and global timers; systematic product of shapes x budgets x first event x random second event, then random histories. Plus 37 histories in which the downstream sender returns an error from AppendHeaders / AppendData / AppendTrailers: every reply kind (upstream reply headers-only / with body / with trailers, filter hijack per phase, filter direct response, route direct response, no route, no host, reset / overflow / time-out replies, TerminateStream, send-filter answers, retried 503) x every sender call occurring in it. Sequences of 2..4 requests driven back to back on one goroutine so that the buffer pool hands the downStream object of request k to request k+1 (observed by pointer identity): first request ending by every terminal path (upstream reply headers-only / body / trailers / 4xx, route direct response, no route, no host, filter hijack, one-way, upstream reset, overflow, global time-out, retried 503) x second request needing each MOSN-generated outcome (overflow, connect failures, remote reset, per-try time-out then answer, global time-out, filter hijack) or a plain answer; every request also run alone. Non-trivial: at least one asynchronous event or pool failure or timer expiry decided the outcome (every history except the plain 2xx answer); distinct by the full history description."
 	specs := genC03(run)
 	// listed-defect witnesses (always run so that the finding stays observed)
 	specs = append(specs,
@@ -509,6 +509,10 @@ func c03(args []string) int {
 		jobs[i] = &histJob{id: i + 1, spec: sp}
 	}
 	runAll(jobs, 200)
+	// sequences of requests re-using the pooled downStream object: every request judged as if alone
+	if rc := seqPart(run, 800000, c03Finder); rc != 0 {
+		return rc
+	}
 	return finishProxy(run, jobs, c03Finder, plainSpec)
 }
 
